@@ -406,9 +406,15 @@ def _find_witness(actual, expected, argspecs, names, lane_bits, seed, env_ok, wa
         pts = EXTRA_POINTS[0]
         nl = max([b // lb for (b, lb, dom) in argspecs if lb] + [1])
         step = 1 if EXTRA_UNIFORM[0] else nl
-        for c0 in range(0, len(pts), step):
-            chunk = pts[c0:c0 + step]
-            chunk = chunk + [chunk[0]] * (nl - len(chunk))     # one point per lane (the same point in every lane if uniform)
+        chunks = []
+        plain = [pt for pt in pts if not pt.get("_uniform")]
+        for c0 in range(0, len(plain), step):
+            chunk = plain[c0:c0 + step]
+            chunks.append(chunk + [chunk[0]] * (nl - len(chunk)))     # one point per lane (the same point in every lane if uniform)
+        for pt in pts:
+            if pt.get("_uniform"):
+                chunks.append([pt] * nl)                              # a point that must be presented in every lane at once
+        for chunk in chunks:
             args = []
             for ai, (b, lb, dom) in enumerate(argspecs):
                 nm = names[ai] if ai < len(names) else None
